@@ -39,6 +39,9 @@ fn atoms() -> Vec<Node> {
         Flags("i".into(), "".into(), None),
         Flags("x".into(), "".into(), None),
         Flags("s".into(), "".into(), None),
+        Flags("m".into(), "".into(), None),
+        Raw("\\A".into()),
+        Raw("\\z".into()),
         Empty,
     ]
 }
@@ -372,7 +375,7 @@ pub fn run(ctx: &Ctx) -> Outcome {
     }
     let mut out = Outcome::new(acc);
     out.distinct_nontrivial = out.acc.distinct;
-    out.rule = format!("{} over literals a A b é space -, . [ab] [^a] [a ] [a\\-b] [+\\-.] [\\]a\\^] [^\\s\\d] [[:alpha:]&&[^b]] [\\x61-b] \\w \\s \\d, ^ $ (?m:^) (?m:$) \\b \\B \\< \\>, groups, named groups, scoped and inline flags i s m x U -i, greedy/lazy quantifiers; a pattern either crate rejects is counted and skipped; every remaining pattern x all {} texts over {{a,A,b,space,\\n,é,-}} up to length 3 x is_match, find, captures (+names), find_iter, captures_iter, split, splitn(0..3), replacen(0..2)/replace/replace_all with 7 templates, NoExpand and a closure. Plus {} patterns of <= 3 nodes over k s K KELVIN-SIGN LONG-S [ks] \\w \\b \\B \\> (?i) (with and without a leading (?i)) x all texts over those letters up to length 3, and the common-syntax members of {} counted-repeat patterns with bounds 10-1100 x texts around the bound, and {} seeded patterns with 3-8 groups in a counted loop next to \\b / \\B with a failing tail and a fallback alternative. Non-trivial: a pattern with a word-boundary assertion (VM route) or a flag group that matched at least one text.", describe, texts.len(), n_fold, n_big, n_wide);
+    out.rule = format!("{} over literals a A b é space -, . [ab] [^a] [a ] [a\\-b] [+\\-.] [\\]a\\^] [^\\s\\d] [[:alpha:]&&[^b]] [\\x61-b] \\w \\s \\d, ^ $ (?m:^) (?m:$) \\b \\B \\< \\>, groups, named groups, scoped and inline flags i s m x U -i, \\A \\z, greedy/lazy quantifiers; a pattern either crate rejects is counted and skipped; every remaining pattern x all {} texts over {{a,A,b,space,\\n,é,-}} up to length 3 x is_match, find, captures (+names), find_iter, captures_iter, split, splitn(0..3), replacen(0..2)/replace/replace_all with 7 templates, NoExpand and a closure. Plus {} patterns of <= 3 nodes over k s K KELVIN-SIGN LONG-S [ks] \\w \\b \\B \\> (?i) (with and without a leading (?i)) x all texts over those letters up to length 3, and the common-syntax members of {} counted-repeat patterns with bounds 10-1100 x texts around the bound, and {} seeded patterns with 3-8 groups in a counted loop next to \\b / \\B with a failing tail and a fallback alternative. Non-trivial: a pattern with a word-boundary assertion (VM route) or a flag group that matched at least one text.", describe, texts.len(), n_fold, n_big, n_wide);
     out.assumptions = vec!["the regex crate is the oracle; both crates share regex-automata, so a fault inside it is invisible here".into()];
     let (vm, wr) = (out.acc.get("route:vm"), out.acc.get("route:wrapped"));
     out.extra = json!({"routes": {"vm": vm, "wrapped": wr}});
